@@ -16,6 +16,7 @@ import (
 	"os/exec"
 	"path/filepath"
 	"regexp"
+	"runtime"
 	"runtime/debug"
 	"strconv"
 	"strings"
@@ -380,14 +381,31 @@ func c28WorkerMain() {
 			}
 		}()
 		hung := false
-		select {
-		case res = <-done:
-		case <-time.After(timeout + 6*time.Second):
-			// Run did not come back after its context expired (e.g. `wait` on a blocked process
-			// substitution): report, and exit so that the parent starts a fresh worker.
-			res = c28Result{kind: "hang"}
-			hung = true
+		deadline := time.After(timeout + 6*time.Second)
+		tick := time.NewTicker(100 * time.Millisecond)
+	waitLoop:
+		for {
+			select {
+			case res = <-done:
+				break waitLoop
+			case <-deadline:
+				// Run did not come back after its context expired (e.g. `wait` on a blocked process
+				// substitution): report, and exit so that the parent starts a fresh worker.
+				res = c28Result{kind: "hang"}
+				hung = true
+				break waitLoop
+			case <-tick.C:
+				// a memory bomb such as {0..9999999999}: resource exhaustion is not this property
+				var ms runtime.MemStats
+				runtime.ReadMemStats(&ms)
+				if ms.HeapAlloc > 1<<30 {
+					res = c28Result{kind: "hang"}
+					hung = true
+					break waitLoop
+				}
+			}
 		}
+		tick.Stop()
 		out.WriteString(res.line() + "\n")
 		out.Flush()
 		if hung {
